@@ -12,6 +12,17 @@ from ..refval import rcmp
 TZ = datetime.timezone
 
 
+# instants and wall-clock times around the US DST changes (under a DST zone the autumn hour 01:00-02:00 occurs twice, so the
+# order of instants and the order of local wall-clock readings differ there); harmless ordinary values under UTC
+DST_POOL = [
+    datetime.datetime(2024, 11, 3, 5, 45, tzinfo=TZ.utc), datetime.datetime(2024, 11, 3, 6, 15, tzinfo=TZ.utc),
+    datetime.datetime(2024, 11, 3, 1, 30), datetime.datetime(2024, 11, 3, 1, 30, fold=1), datetime.date(2024, 11, 3),
+    datetime.datetime(2024, 11, 3, 0, 50, tzinfo=TZ(datetime.timedelta(hours=-5))), datetime.datetime(2024, 11, 3, 7, 5, tzinfo=TZ(datetime.timedelta(hours=1))),
+    datetime.datetime(2024, 3, 10, 6, 59, 59, tzinfo=TZ.utc), datetime.datetime(2024, 3, 10, 7, 0, tzinfo=TZ.utc), datetime.datetime(2024, 3, 10, 2, 30),
+    datetime.datetime(2024, 3, 10, 3, 0),
+]
+
+
 def pool():
     def f1(args, options):
         return 1
@@ -27,6 +38,7 @@ def pool():
         datetime.datetime(2020, 1, 1, tzinfo=TZ.utc), datetime.datetime(2019, 12, 31, 19, 0, tzinfo=TZ(datetime.timedelta(hours=-5))),
         datetime.datetime(2020, 6, 1, 12, tzinfo=TZ.utc), datetime.datetime(2020, 6, 1, 12), datetime.date(2020, 6, 1), datetime.date(1970, 1, 1),
         datetime.datetime(1999, 12, 31, 23, 59, 59, 999000), datetime.date(2000, 1, 1),
+    ] + DST_POOL + [
         [], [None], [0], [1], [1.0], [1, 2], [1, 2.0], [2], [1, [2]], [1, [2, 3]], [[1]], [[]], ['a'], ['a', 1], [True], [None, None], [[1, 2], 3],
         {}, {'a': 1}, {'a': 1.0}, {'a': 2}, {'b': 1}, {'a': 1, 'b': 2}, {'b': 2, 'a': 1}, {'a': None}, {'a': [1]}, {'a': {'b': 1}}, {'a': {'b': 1.0}}, {'': 0}, {'a': True}, {'a': False}, {'a': 0}, {'a': [True]}, {'a': {'b': True}}, {'a': {'b': 0}}, {'a': 1, 'b': True}, {'a': '1'}, {'b': 1, 'a': 2}, {'b': 2, 'a': 1}, {'b': 0, 'a': 3}, {'c': 1, 'b': 5, 'a': 0}, {'c': 2, 'b': 0, 'a': 0}, {'z': [1], 'y': [2]}, {'z': [2], 'y': [1]},
         [1, 3], [1, 2, 3], [3], [2, 1], [[2]], [[1, 3]], [0, 5], [False], [0], [[True]], [[1]],
@@ -43,6 +55,8 @@ def pool():
 
 def plan(tier, seed):
     specs = [{'part': 'pairs', 'env': {'TZ': 'UTC'}}, {'part': 'pairs', 'env': {'TZ': 'America/New_York'}}, {'part': 'pairs', 'env': {'TZ': 'Asia/Kolkata'}}]
+    for tz in ('America/New_York', 'EST5EDT,M3.2.0,M11.1.0', 'Europe/London'):
+        specs.append({'part': 'dst', 'env': {'TZ': tz}})
     nt = 4 if tier == 'quick' else 16
     for sh in range(nt):
         specs.append({'part': 'triples', 'mod': nt, 'rem': sh, 'sub': 60 if tier == 'quick' else 128, 'nrandom': 20000 if tier == 'quick' else 400000})
@@ -56,7 +70,7 @@ def meta(tier):
     n = len(pool())
     return {
         'level': 'exploration',
-        'rule': (f'pool of {n} values of all nine types (int/float/bool spellings, date vs naive vs aware datetimes, empty and nested '
+        'rule': (f'pool of {n} values of all nine types (int/float/bool spellings, date vs naive vs aware datetimes incl. the repeated and skipped hours of the US daylight-saving changes (pairs and all datetime triples re-run under America/New_York, a POSIX EST5EDT rule and Europe/London), empty and nested '
                  'containers to depth 3, +-inf, 10**15 vs 1e15, big integers); ALL ordered pairs (range, reflexivity, antisymmetry, '
                  'agreement with the independent comparator, int/float insensitivity), ALL triples of a sub-pool plus random triples '
                  '(transitivity of <=), and consumers through scripts: the six operators as sign tests, systemCompare, arraySort, '
@@ -164,6 +178,36 @@ def run_triples(spec, acc, api):
                           {'a': refval.enc(P[i]), 'b': refval.enc(P[j]), 'c': refval.enc(P[k])})
 
 
+def run_dst(spec, acc, api):
+    """Under a zone with daylight saving: ALL triples of the datetime values (aware, naive, date; inside the repeated and the
+    skipped hour) are transitive, and sorting / min / max agree with the pairwise comparison."""
+    bare_script, lib, value_compare = api
+    P = [v for v in pool() if isinstance(v, datetime.date)]
+    n = len(P)
+    m = [[value_compare(a, b) for b in P] for a in P]
+    for i in range(n):
+        for j in range(n):
+            if m[i][j] != -m[j][i]:
+                acc.violation('antisymmetry', f'cmp({P[i]!r},{P[j]!r})={m[i][j]} back={m[j][i]}', {'a': refval.enc(P[i]), 'b': refval.enc(P[j])})
+            for k in range(n):
+                acc.case(('dst', i, j, k), not (i == j == k))
+                if m[i][j] <= 0 and m[j][k] <= 0 and m[i][k] > 0:
+                    acc.violation('transitivity', f'TZ={spec["env"]["TZ"]}: {P[i]!r} <= {P[j]!r} <= {P[k]!r} but cmp(first,last)={m[i][k]}',
+                                  {'a': refval.enc(P[i]), 'b': refval.enc(P[j]), 'c': refval.enc(P[k])})
+    rnd = random.Random(spec['seed'] + 77)
+    for _ in range(300):
+        xs = [rnd.choice(P) for _ in range(rnd.randint(2, 7))]
+        acc.case(('dst-sort', repr(xs)), True)
+        s = lib['arraySort']([list(xs)], None)
+        lo, hi = lib['mathMin'](list(xs), None), lib['mathMax'](list(xs), None)
+        if any(value_compare(s[k], s[k + 1]) > 0 for k in range(len(s) - 1)):
+            acc.violation('sort-not-ordered', f'TZ={spec["env"]["TZ"]}: {xs!r} -> {s!r}', {'xs': refval.enc(xs)})
+        if any(value_compare(lo, x) > 0 for x in xs) or any(value_compare(hi, x) < 0 for x in xs):
+            acc.violation('min-max-not-extreme', f'TZ={spec["env"]["TZ"]}: {xs!r} -> min {lo!r} max {hi!r}', {'xs': refval.enc(xs)})
+    acc.count('dst_zone_runs')
+    acc.cover('dst_zones', spec['env']['TZ'])
+
+
 def run_consumers(spec, acc, api):
     bare_script, lib, value_compare = api
     from ..contracts import Contracts
@@ -265,6 +309,8 @@ def run_shard(spec, acc):
         run_pairs(acc, api)
     elif spec['part'] == 'triples':
         run_triples(spec, acc, api)
+    elif spec['part'] == 'dst':
+        run_dst(spec, acc, api)
     else:
         run_consumers(spec, acc, api)
 
